@@ -110,8 +110,8 @@ class RegEngine(Engine):
       r = rng.random()
       if r < 0.75:
         req = {'api': rng.choice(APIS), 'shape': rng.choice(SHAPES),
-               'name': rng.choice([None, None, 'x', 'y', 'pkg.q', 'bad-name', '1x', 'x']),
-               'module': rng.choice([None, None, 'm', 'm.n', 'bad module', '']),
+               'name': rng.choice([None, None, 'x', 'y', 'pkg.q', 'bad-name', '1x', 'x', 'x\n', 'pkg.q\n']),
+               'module': rng.choice([None, None, 'm', 'm.n', 'bad module', '', 'm\n']),
                'allow': [], 'deny': [], 'lists_ok': True, 'scoped': rng.random() < 0.4}
         x = rng.random()
         if x < 0.15:
@@ -153,7 +153,7 @@ class RegEngine(Engine):
     if name is None:
       name = 'NONAME'
     import re
-    if re.match(r'^[a-zA-Z_]\w*$', name):
+    if re.fullmatch(r'[a-zA-Z_]\w*', name):
       module = req['module'] if req['module'] is not None else getattr(obj, '__module__', None)
     else:
       module = req['module']
@@ -251,9 +251,13 @@ class RegEngine(Engine):
       accepted += 1
       new = [k for k in after if k not in before]
       sel = new[0] if new else None
-      if sel is None:       # re-registration of an existing selector
+      if sel is None:       # re-registration of an existing selector: the one the request spells
         name = req['name'] or getattr(obj, '__name__', '')
-        cands = [k for k in after if k == name or k.endswith('.' + name)]
+        import re as _re
+        module = (req['module'] if req['module'] is not None else getattr(obj, '__module__', None)) \
+            if _re.fullmatch(r'[a-zA-Z_]\w*', name) else req['module']
+        want = (module + '.' + name) if module else name
+        cands = [k for k in after if k == want] or [k for k in after if k == name or k.endswith('.' + name)]
         sel = cands[-1] if cands else '?'
       obs.append([T('Registered', sel, req['api'] == 'register'), keys])
       tags.append('%s:%s' % (req['api'], req['shape']))
